@@ -4,6 +4,8 @@ Emits one object body at a time while carrying its own context (chunked?, option
 reached?, scope, switched fields).  What it emits is re-checked by the independent grammar model
 vf/ref/grammar.py before use.  `wu_bias` only shifts probabilities towards wire-unambiguous shapes;
 membership of C01's domain is decided by vf/gen/wu.py, not here."""
+import zlib
+
 from vf.gen import spec as S
 from vf.ref import numbers
 from vf.ref.interp import Interp
@@ -357,6 +359,9 @@ class SpecGen:
             if ctx.chunked and self.chance(0.5):
                 body.append(S.Break())
                 ctx.opt = False
+            elif zlib.crc32(ln.encode()) % 3 == 0 and self._switch_in_gap(body, ctx):
+                # a whole switch stands between the length and the item that refers to it
+                self.feat("length-gap-switch")
             else:
                 k = rng.choice(INT_KINDS)
                 n2 = self.field_name(ctx)
@@ -382,6 +387,20 @@ class SpecGen:
             self.feat("array-lengthref" + ("-delimited" if delimited else ""))
         self.feat("length:offset%+d" % offset if offset else "length:offset0")
         return True
+
+    def _switch_in_gap(self, body, ctx):
+        """emit_switch, undone again when it would leave the enclosing body in a state where no plain item may follow."""
+        mark = len(body)
+        saved = (ctx.opt, ctx.dummy, ctx.tail_open, set(ctx.switched), dict(ctx.scope))
+        if self.emit_switch(body, ctx) and not (ctx.opt or ctx.dummy or ctx.tail_open):
+            return True
+        del body[mark:]
+        ctx.opt, ctx.dummy, ctx.tail_open = saved[:3]
+        ctx.switched.clear()
+        ctx.switched.update(saved[3])
+        ctx.scope.clear()
+        ctx.scope.update(saved[4])
+        return False
 
     def emit_dummy(self, body, ctx):
         # allowed as sole instruction, or after only possibly-empty items (optional fields, unsized arrays)
